@@ -142,3 +142,32 @@ def branch_conditions(body, prov):
         fb = false_b if body.preds(false_b) == [bi] else None
         out.append((tb, fb, term[1], term[2], term[3], bi))
     return out
+
+
+def bool_call_conditions(body, prov):
+    """for every switch on a bool returned by a call: (true_block|None, false_block|None, call term, switch_bb)"""
+    out = []
+    for bi, b in enumerate(body.blocks):
+        t = b["t"]
+        if t["k"] != "switch" or not body.reachable(bi) or t.get("dty") != "bool":
+            continue
+        term = prov.op(t["discr"])
+        neg = False
+        while term[0] == "un" and term[1] == "Not":
+            neg = not neg
+            term = term[2]
+        if term[0] != "call":
+            continue
+        false_b = None
+        for val, tgt in t["arms"]:
+            if val == 0:
+                false_b = tgt
+        true_b = t["otherwise"]
+        if false_b is None:
+            continue
+        if neg:
+            true_b, false_b = false_b, true_b
+        tb = true_b if body.preds(true_b) == [bi] else None
+        fb = false_b if body.preds(false_b) == [bi] else None
+        out.append((tb, fb, term, bi))
+    return out
